@@ -102,6 +102,11 @@ CHECKS = {
          "Images of 1-16 tiny layers (tar/gzip/zstd/already-converted sources, OCI and Docker media types, repeated layers, manifest or index, dangling writers, retries) in a content/local store are converted with containerd's DefaultIndexConvertFunc (parallel layers, one converter instance per image) using all seven constructors of the repo's estargz / zstd:chunked / external-TOC / lossless converters. Every returned descriptor is recomputed from the committed blob: digest/size, media type vs magic bytes, uncompressed-size annotation and containerd.io/uncompressed label vs the decompressed stream, TOC digest vs an independently located TOC and vs the snapshotter's own mount path, per-layer options reflected in that layer's TOC, lossless DiffID unchanged, TOC image mapping every converted layer to the TOC that verifies it. Race build for the shared converter state; fatal errors are attributed through an on-disk journal. Holds on the conversions executed.",
          "Trusted: containerd's content/local store and converter driver, std gzip / klauspost zstd, SHA-256, the check's own footer/TOC locator. The four converter tests of the repo need the network and cannot run offline.",
          "DESIGN.md section 5 C19"),
+ "C04": ("exploration",
+         "crash/hang monitor over generated hostile inputs pushed through the whole consumer chain in journaled child processes (plain + race/checkptr builds)",
+         "Five seeded generators (raw footers with every single-field mutation; structure-aware adversarial TOCs in gzip / zstd:chunked / external-TOC framing: hardlink cycles and DAGs, huge/negative sizes and offsets, overlapping/unsorted/zero-size chunks, null entries, odd names; mutations of genuine blobs; 50 kinds of hostile registry replies; hostile tar/gzip/zstd builder inputs) are pushed through estargz.Open and every Reader method, each Decompressor, both metadata stores with a full walk, reader.NewReader -> VerifyTOC/SkipVerify -> Cache -> OpenFile/ReadAt/GetPassthroughFd, and the full layer stack (Resolve, Verify, Prefetch, RootNode, node walk, BackgroundFetch). Cases run in child batches with an on-disk journal written before each case; a recovered panic, a process death (attributed through the journal and the crash report) or a hang (decided on CPU time and idleness of the case re-run alone, not on wall-clock) is a violation keyed by kind + normalised message + innermost repository function. Out-of-memory and thread exhaustion are inconclusive. Holds on the inputs generated.",
+         "Trusted: the harness walkers are depth- and visit-bounded and only make calls the daemon can make. Memory exhaustion (allocation sizes below the 1 GiB chunk bound, the rlimit of the child) is outside the statement and reported as inconclusive. Quadratic-but-finite behaviour is not judged.",
+         "DESIGN.md section 5 C04"),
 }
 
 PENDING_REASON = "check not built yet in this session (work in progress; DESIGN.md section 5 describes the planned runtime monitor)"
